@@ -200,7 +200,7 @@ def tls_value(cx, msg, v, rng, sig):
     if f2 != w2:
         res.violation("codec:%s:decode-differs-from-reference:%s" % (msg, _diff(f2, w2)),
                       "aioquic reads a different value from the reference encoding", cx.case(), {"data": enc2[:300].hex()})
-    res.nontrivial.add(sig)
+    res.nontrivial.add("%s:L%d" % (sig, len(data).bit_length()))
 
 
 def gen_tls_values(batch, res):
